@@ -893,6 +893,20 @@ fn random_io(rng: &mut Rng) -> Io {
     }
 }
 
+/// types outside the property's grid: 1-vectors, matrices, structs, enums (order independence and domination are
+/// still judged there; "exact match" is not, see `judge_set`)
+fn off_grid_ty(rng: &mut Rng) -> Ty {
+    let s = *rng.pick(GRID_SCALARS);
+    let layer = match rng.below(12) {
+        0..=3 => Layer::Vector(s, 1),
+        4 => Layer::Matrix(s, 2, 2),
+        5 => Layer::Matrix(s, 3, 2),
+        6..=8 => Layer::Other(rng.below(2) as u32),
+        _ => Layer::Enum(rng.below(2) as u32),
+    };
+    Ty { mods: Mods(0), layer }
+}
+
 fn random_set(rng: &mut Rng, hist: &mut Hist) -> (Vec<Cand>, Vec<Ty>) {
     let k = match rng.below(20) {
         0..=5 => 2,
@@ -901,12 +915,24 @@ fn random_set(rng: &mut Rng, hist: &mut Hist) -> (Vec<Cand>, Vec<Ty>) {
         _ => 5,
     };
     let arity = rng.range(1, 3) as usize;
-    let centre: Vec<Ty> = (0..arity).map(|_| grid_ty(rng)).collect();
+    let off_grid = rng.chance(1, 8);
+    if off_grid {
+        hist.add("set:off-grid");
+    }
+    let centre: Vec<Ty> = (0..arity)
+        .map(|_| if off_grid && rng.chance(1, 2) { off_grid_ty(rng) } else { grid_ty(rng) })
+        .collect();
     let mut cands: Vec<Cand> = Vec::new();
     let mut tries = 0;
     while cands.len() < k && tries < 200 {
         tries += 1;
-        let mut params: Vec<Param> = centre.iter().map(|c| Param { io: random_io(rng), ty: related_ty(rng, *c) }).collect();
+        let mut params: Vec<Param> = centre
+            .iter()
+            .map(|c| Param {
+                io: random_io(rng),
+                ty: if off_grid && rng.chance(1, 3) { off_grid_ty(rng) } else { related_ty(rng, *c) },
+            })
+            .collect();
         let mut non_default = arity;
         if arity < 3 && rng.chance(1, 8) {
             // one more, defaulted, parameter
@@ -929,7 +955,11 @@ fn random_arg(rng: &mut Rng, centre: Ty) -> ETy {
     match rng.below(16) {
         0 | 1 => ETy { lvalue: false, ty: Ty { mods: Mods(0), layer: Layer::Scalar(S_INTLIT) } },
         2 => ETy { lvalue: false, ty: Ty { mods: Mods(0), layer: Layer::Scalar(S_FLOATLIT) } },
-        3 => ETy { lvalue: true, ty: Ty { mods: Mods(1), layer: related_ty(rng, centre).layer } },
+        3 => {
+            let l = related_ty(rng, centre).layer;
+            // a const local needs an initialiser, which the generator only writes for numeric types
+            ETy { lvalue: true, ty: Ty { mods: Mods(if is_numeric(l) { 1 } else { 0 }), layer: l } }
+        }
         n => ETy { lvalue: n % 2 == 0, ty: related_ty(rng, centre) },
     }
 }
